@@ -1,6 +1,7 @@
 import Logrange.Proofs.TagsTight
 import Logrange.Proofs.ParsedKeys
 import Logrange.Proofs.TagsNecessity
+import Logrange.Proofs.TagsNecessityN
 /-!
 # C08 — how tight is the hypothesis `safe` of `tags_roundtrip_partial`?
 
@@ -13,9 +14,12 @@ import Logrange.Proofs.TagsNecessity
   there. The necessity direction rests on `unquote_ne_self` / `unquote_never_restores`: `strconv.Unquote` has no fixed point
   (a length argument fails — an invalid UTF-8 byte grows to U+FFFD, three bytes — the proof counts backslashes and double
   quotes: every step of `UnquoteChar` appends at most as many as it consumes, the two delimiters are lost).
-* For two or more pairs, necessity as far as it is proved: the conditions on NAMES are necessary (`names_necessary`). The full
-  characterisation `safeW_necessary : Prop` stays open (after the first non-inert raw value the splitter runs out of step
-  with the pairs and later quoted values are read at top level; no invariant found in the time box). It is supported by
+* For any number of pairs `safeW` is EXACT whenever the raw values are inert: `safeW_iff_inert` (`parse (line m) = some m ↔ safeW m`
+  under `rawInert m`), `safeW_iff_noDQ` (same under "no unquoted value contains a double quote"); `names_necessary` holds
+  without any hypothesis. What stays open of `safeW_necessary : Prop` is exactly a raw value that is NOT inert (an unbalanced
+  double quote in a value printed without quotes): the splitter then runs out of step with the pairs, later quoted values are
+  read at top level and `mp[k] = v` lets a later pair override an earlier one; no counting argument closes it (lengths fail on
+  invalid UTF-8, the backslash/quote count has slack), it needs a positional invariant of the out-of-step run. It is supported by
   kernel-checked counterexamples for each dropped condition (`Props.C08.cex_…`, `cex_first_name_brace`, …) and measured on
   every run by the harness (section `tags`, cross-tab `safeW=0|1 × outcome`: quick 75 288 accepted sets, `safeW=1` ⇒ same
   43 097/43 097, `safeW=0` ⇒ same 0/32 191; a round trip outside `safeW` is kept as a sample).
@@ -81,7 +85,26 @@ theorem singleton_roundtrip_iff_safe (k v : Bytes) : parse (line [(k, v)]) = som
 example : safe [([97], [120, 34, 121, 34, 122])] = true ∧ safe [([97], [120, 34, 121])] = false ∧
     parse (line [([97], [120, 34, 121])]) = none := by decide +kernel
 
-/-- the full characterisation for any number of pairs (open; see the header) -/
+/-- **`safeW` is exactly tight for ANY number of pairs whose raw values are inert** (every value that is printed without
+quotes has balanced double quotes and no dangling backslash inside them): the line reads back as the same set IFF `safeW` -/
+theorem safeW_iff_inert (m : Map) (hwf : Map.WF m) (hi : Logrange.Proofs.TagsNecessityN.rawInert m = true) :
+    parse (line m) = some m ↔ safeW m = true :=
+  Logrange.Proofs.TagsNecessityN.safeW_iff_inert m hwf hi
+
+theorem safeW_necessary_inert (m : Map) (hwf : Map.WF m) (hi : Logrange.Proofs.TagsNecessityN.rawInert m = true)
+    (h : parse (line m) = some m) : safeW m = true :=
+  Logrange.Proofs.TagsNecessityN.safeW_necessary_inert m hwf hi h
+
+/-- the same under a purely syntactic hypothesis: no raw (unquoted) value contains a double quote -/
+theorem safeW_iff_noDQ (m : Map) (hwf : Map.WF m) (h : ∀ p ∈ m, needsQuote p.2 = false → DQ ∉ p.2) :
+    parse (line m) = some m ↔ safeW m = true :=
+  Logrange.Proofs.TagsNecessityN.safeW_iff_noDQ m hwf h
+
+/-- non-vacuity: `a=x},{c=2` (in `safeW \ safe`) has inert raw values -/
+example : Logrange.Proofs.TagsNecessityN.rawInert [([97], [120, 125]), ([123, 99], [50])] = true := by decide +kernel
+
+/-- the full characterisation for any number of pairs — what is left open is exactly the case of a raw value that is NOT
+inert (an unbalanced double quote in a value printed without quotes): see the header -/
 def safeW_necessary : Prop := ∀ m, Map.WF m → parse (line m) = some m → safeW m = true
 
 /-- the two position-dependent conditions are necessary where they apply: a FIRST name starting with `{` … -/
